@@ -403,6 +403,9 @@ def p_C16(ctx):
 
 def p_C07(ctx):
     flow_programs(ctx, "fmachine", 14, 56, 1500, 12000)
+    for m in ([131] if ctx.quick() else [131, 181, 251]):
+        # unbounded histories at small scale: full reachable set of the transcribed limb routines run as a register machine
+        flow_levelb(ctx, "ImplFieldMachine", {"W": 2, "M": m}, ["Canonical", "Faithful", "EqByValue", "InvTerminates"], init="FInit", nxt="FNext")
     flow_tlaps(ctx)                 # results of add / sub / neg / mul2 / div2 / conditional subtraction / carry fold stay in [0, p), for every p < R < 2p
     if not ctx.quick():
         levelb_mont(ctx)
